@@ -129,7 +129,6 @@ def memoValueWrites : List (Nat × Nat × Nat × Nat) :=
    (k! "imports.py", k! "Imports.__init__", k! "self.alias", k! "alias"),
    (k! "model/enum.py", k! "Member.__init__", k! "self.alias", k! "alias"),
    (k! "parser/base.py", k! "Parser.__alias_shadowed_imports", k! "data_type.import_", k! "import_"),
-   (k! "parser/base.py", k! "Parser.__alias_shadowed_imports", k! "import_.alias", k! "alias"),
    (k! "parser/base.py", k! "Parser.__change_field_name", k! "field.alias", k! "alias"),
    (k! "parser/base.py", k! "Parser.__change_from_import", k! "data_type.alias", k! "alias"),
    (k! "parser/base.py", k! "Parser.__collapse_root_models", k! "d.alias", k! "alias"),
